@@ -49,6 +49,9 @@ func ruleCopyOnWrite(c *Ctx) {
 			}
 		case *ssa.Call:
 			if b, ok := x.Call.Value.(*ssa.Builtin); ok && b.Name() == "append" && len(x.Call.Args) > 0 {
+				if cappedSlice(x.Call.Args[0]) {
+					return "" // append to s[:i:i] always copies
+				}
 				return origin(x.Call.Args[0], seen)
 			}
 		case *ssa.UnOp:
@@ -91,7 +94,9 @@ func ruleCopyOnWrite(c *Ctx) {
 					case "copy":
 						target, how = x.Call.Args[0], "copy destination"
 					case "append":
-						target, how = x.Call.Args[0], "append (may write into the spare capacity of the shared slice)"
+						if !cappedSlice(x.Call.Args[0]) {
+							target, how = x.Call.Args[0], "append (may write into the spare capacity of the shared slice)"
+						}
 					case "delete":
 						target, how = x.Call.Args[0], "map delete"
 					}
@@ -110,4 +115,11 @@ func ruleCopyOnWrite(c *Ctx) {
 	c.inst(1)
 	c.ok("repository", "cached content is updated copy-on-write", "-", "container writes inspected; none originates from Collection.Values / Model.Values")
 	c.note("DOM/copy-on-write: %d container-writing instructions inspected", n)
+}
+
+// cappedSlice: s[lo:hi:hi] — a slice with no spare capacity; appending to it
+// allocates a new backing array.
+func cappedSlice(v ssa.Value) bool {
+	sl, ok := v.(*ssa.Slice)
+	return ok && sl.Max != nil && sl.High != nil && sl.Max == sl.High
 }
